@@ -452,6 +452,10 @@ pub fn observe_subproc(p: &Program, w: &World, scratch: &Path, fakebin: &Path) -
         ("fmt-diff", vec!["--no-banner".into(), "--color".into(), "never".into(), "fmt".into(), "--diff".into(), "proj".into()]),
         ("fmt-check", vec!["--no-banner".into(), "--color".into(), "never".into(), "fmt".into(), "--check".into(), "proj".into()]),
     ];
+    if p.files.len() == 1 && p.kind != "generated-tests" {
+        // the same source as inline code: `incan run -c CODE` (cargo is the stub, nothing is executed)
+        cmds.push(("run-c", vec!["--no-banner".into(), "--color".into(), "never".into(), "run".into(), "-c".into(), p.files[0].1.clone()]));
+    }
     if p.kind == "generated-tests" {
         cmds = vec![(
             "test-v",
@@ -476,6 +480,13 @@ pub fn observe_subproc(p: &Program, w: &World, scratch: &Path, fakebin: &Path) -
             continue;
         }
         o.insert(format!("out:{rel}"), String::from_utf8_lossy(&bytes).to_string());
+    }
+    // the project `incan run -c` generates below the working directory
+    for (rel, bytes) in world::read_tree(&root.join("target/incan")) {
+        if rel.contains("/target/") {
+            continue;
+        }
+        o.insert(format!("runc:{rel}"), String::from_utf8_lossy(&bytes).to_string());
     }
     // the per-test harness projects `incan test` generates (target/incan_tests/<fn>/{Cargo.toml,src/main.rs})
     for (rel, bytes) in world::read_tree(&root.join("target/incan_tests")) {
@@ -564,6 +575,9 @@ fn key_class(k: &str) -> String {
     if k.starts_with("harness:") {
         return "generated test harness".into();
     }
+    if k.starts_with("runc:") {
+        return "project generated by run -c".into();
+    }
     if k.starts_with("fmt:") || k.starts_with("diff:") {
         return "formatter output".into();
     }
@@ -622,6 +636,16 @@ fn run_case(p: &Program, worlds: &[World], scratch: &Path, fakebin: &Path, subpr
 
 /// Reduce the difference between the two worlds to one dimension, if one dimension alone reproduces the mismatch.
 fn isolate_dimension(p: &Program, a: &World, b: &World, scratch: &Path, fakebin: &Path, subproc: bool, key: &str) -> (String, World) {
+    // two runs in the *same* world (same directory, recreated): if they still differ, no world dimension is to blame
+    // but the identity of the process itself (pid, real time)
+    if subproc {
+        let r = run_case(p, &[a.clone(), a.clone()], scratch, fakebin, subproc);
+        if let Some((_, k, _, _)) = &r.mismatch {
+            if key_class(k) == key_class(key) {
+                return ("process-identity".to_string(), a.clone());
+            }
+        }
+    }
     let dims = ["hash", "env", "loc", "clock", "readdir", "previous-build"];
     for d in dims {
         let mut c = a.clone();
@@ -930,7 +954,9 @@ pub fn main(args: &[String]) {
         wa.order = (0..mp.files.len()).collect();
         wb2.order = if wb.order == worlds[0].order { wa.order.clone() } else { (0..mp.files.len()).rev().collect() };
         wa.loc = "w0".into();
-        if wb2.loc == wa.loc || dim != "loc" {
+        if dim == "process-identity" {
+            wb2.loc = "w0".into();
+        } else if wb2.loc == wa.loc || dim != "loc" {
             wb2.loc = "w1".into();
         }
         let fin = run_case(&mp, &[wa.clone(), wb2.clone()], &scratch, &fakebin, subproc);
